@@ -51,6 +51,7 @@ let regname = function
 let show_verdict = function
   | VReached (n, ch, mw) -> Printf.sprintf "REACHED %d [%s] memw=%b" (int_of_nat n) (String.concat "," (List.map regname ch)) mw
   | VStuck (rip, n) -> Printf.sprintf "STUCK %s %d" (hz rip) (int_of_nat n)
+  | VLanded (rip, n) -> Printf.sprintf "LANDED %s %d" (hz rip) (int_of_nat n)
   | VTimeout rip -> Printf.sprintf "TIMEOUT %s" (hz rip)
 
 (* writes: a1:hex1,a2:hex2,... oldest first *)
@@ -228,7 +229,10 @@ let handle (t : string list) : string =
     let s = zh src and f = zh fake in
     let odd z = not (Z.eqb (Z.modulo z (zi 2)) Z0) in
     let dst = if odd f then Z.sub f (zi 1) else f in
+    let wrs = parse_writes ws in
+    let inside a = List.exists (fun (b, bs) -> let d = BZ.sub (bz_of_z a) (bz_of_z b) in BZ.sign d >= 0 && BZ.lt d (BZ.of_int (List.length bs))) wrs in
     let rec go fuel steps (st : rstate) =
+      if (not (inside st.rpc)) && not (Z.eqb st.rpc dst) then Printf.sprintf "LANDED %s %d" (hz st.rpc) steps else
       if Z.eqb st.rpc dst && steps > 0 then
         let ch = List.filter (fun r -> not (Z.eqb (st.rr (zi r)) (regs0 (zi r)))) (List.init 15 (fun i -> i)) in
         Printf.sprintf "REACHED %d thumb=%b [%s]" steps st.rthumb (String.concat "," (List.map (fun r -> "r" ^ string_of_int r) ch))
@@ -252,10 +256,13 @@ let handle (t : string list) : string =
     let m = List.fold_left (fun m (a, bs) -> write m a bs) mem0 (parse_writes ws) in
     let regs0 = fun r -> Z.add (zh "7700000000000000") r in
     let d = zh dst in
+    let wrs = parse_writes ws in
+    let inside a = List.exists (fun (b, bs) -> let d = BZ.sub (bz_of_z a) (bz_of_z b) in BZ.sign d >= 0 && BZ.lt d (BZ.of_int (List.length bs))) wrs in
     let rec go fuel steps (st : astate) =
       if Z.eqb st.apc d then
         let ch = List.filter (fun r -> not (Z.eqb (st.ax (zi r)) (regs0 (zi r)))) (List.init 31 (fun i -> i)) in
         Printf.sprintf "REACHED %d [%s]" steps (String.concat "," (List.map (fun r -> "x" ^ string_of_int r) ch))
+      else if not (inside st.apc) then Printf.sprintf "LANDED %s %d" (hz st.apc) steps
       else if fuel = 0 then "TIMEOUT " ^ hz st.apc
       else match adecode (afetch st.am st.apc) with
         | None -> Printf.sprintf "STUCK %s %d" (hz st.apc) steps
@@ -266,10 +273,13 @@ let handle (t : string list) : string =
     let m = List.fold_left (fun m (a, bs) -> write m a bs) mem0 (parse_writes ws) in
     let regs0 = fun r -> Z.add (zh "7700000000000000") r in
     let d = regs0 (zi 30) in
+    let wrs = parse_writes ws in
+    let inside a = List.exists (fun (b, bs) -> let d = BZ.sub (bz_of_z a) (bz_of_z b) in BZ.sign d >= 0 && BZ.lt d (BZ.of_int (List.length bs))) wrs in
     let rec go fuel (st : astate) =
       if Z.eqb st.apc d then
         let ch = List.filter (fun r -> not (Z.eqb (st.ax (zi r)) (regs0 (zi r)))) (List.init 31 (fun i -> i)) in
         Printf.sprintf "RETURNED x0=%s [%s]" (hz (st.ax Z0)) (String.concat "," (List.map (fun r -> "x" ^ string_of_int r) ch))
+      else if not (inside st.apc) then Printf.sprintf "LANDED %s" (hz st.apc)
       else if fuel = 0 then "TIMEOUT " ^ hz st.apc
       else match adecode (afetch st.am st.apc) with
         | None -> Printf.sprintf "STUCK %s" (hz st.apc)
